@@ -1,13 +1,24 @@
 use vstd::prelude::*;
 // Shadow macros (outside verus!): diagnostics text and tracing side effects are DROPPED by this.
 #[allow(unused_macros)]
-macro_rules! format { ($fmt:literal $(, $a:expr)* $(,)?) => { crate::verif_format($fmt, ($(&$a,)*)) } }
+macro_rules! format {
+    // the one format string whose OUTPUT matters to a property (grpc-timeout writer): two Display arguments, concatenated
+    ("{}{}", $a:expr, $b:expr $(,)?) => { crate::verif_format2(&$a, &$b) };
+    ($fmt:literal $(, $a:expr)* $(,)?) => { crate::verif_format($fmt, ($(&$a,)*)) }
+}
 #[allow(unused_macros)]
 macro_rules! trace { ($($t:tt)*) => { } }
 #[allow(unused_macros)]
 macro_rules! debug { ($($t:tt)*) => { } }
 #[allow(unused_macros)]
 macro_rules! warn { ($($t:tt)*) => { } }
+#[allow(unused_macros, unused_imports)]
+mod tracing {
+    macro_rules! debug { ($($t:tt)*) => { } }
+    macro_rules! trace { ($($t:tt)*) => { } }
+    pub(crate) use debug;
+    pub(crate) use trace;
+}
 // std::task::ready!, verbatim definition
 #[allow(unused_macros)]
 macro_rules! ready {
